@@ -6,6 +6,10 @@ LEVEL = "model_checking"
 ASSUMPTIONS = ["Codec_Lh1.tla carries the LZHUF reference (StartHuff / update / reconst on freq, prnt, son); lhasa's decoder uses a different "
                "data structure (frequency groups), so chunk-by-chunk equality of every decoded command means the two trees assign the same "
                "code to every symbol at every step",
+               "Codec_Lh1Groups.tla transcribes lhasa's group structure; MC_Codec_Lh1Lock checks it against the reference for every symbol "
+               "sequence over alphabets of 2..16 symbols (node-for-node equality, codes, group invariants, no array overrun); the transcription is "
+               "bound to the C code by dumping the real struct (full size and small-alphabet builds of the current source) and comparing "
+               "field by field",
                "the independent encoder (harness/py/enc/enc_lh1.py) mirrors the original LZHUF encoder",
                "TLC/SANY/CommunityModules trusted"]
 
@@ -33,6 +37,10 @@ def ramp_cases(tier, ev):
 def run(tier, seed, ev):
     viols = CC.run("C02", [("lh1", "-lh1-")], tier, seed, ev, 120000 if tier == "quick" else 3000000, extra=ramp_cases(tier, ev))
     viols += CC.ground(tier, ["-lh1-"], ev)
+    # lhasa's own data structure (frequency groups) against the LZHUF arrays: bounded lock-step model + the compiled
+    # lib/lh1_decoder.c dumped field by field against its transcription (Codec_Lh1Groups, Trace_Lh1Groups)
+    import c02_groups
+    viols += c02_groups.run(tier, seed, ev)
     ev.set("rule", "one execution per (stream, read schedule); distinct = structural case label (symbol distributions, copy lengths 3..60, "
                    "distances 0/63/64/4095, streams long enough for several tree rebuilds)")
     return viols
